@@ -2,119 +2,12 @@ package reporting
 
 import (
 	"fmt"
-	"go/token"
-	"strings"
-
-	"golang.org/x/tools/go/analysis"
-
 	"github.com/a14e/gogreement/src/zzverif/nd"
+	"golang.org/x/tools/go/analysis"
+	"strings"
 )
 
-// C19-K1: truncation and caret arithmetic, for every line length (no static bound on the line).
-func ZZC19K1() {
-	s := nd.Buf("line")
-	col := nd.Int("col")
-	nd.Assume(1 <= col)
-	nd.Assume(col <= len(s)+1)
-	t := truncateString(s, MaxLineLength, col)
-	d := calculateDisplayColumn(s, col, MaxLineLength)
-	nd.Observe("t", t)
-	nd.Observe("d", d)
-	// property: "the length of an excerpt line is bounded by the display limit plus its ellipsis markers"
-	nd.Assert(len(t) <= MaxLineLength+6, "excerpt length bounded by limit + ellipses")
-	if len(s) <= MaxLineLength {
-		nd.Assert(nd.StrEq(t, s), "short line shown unchanged")
-		nd.Assert(d == col, "short line: caret column unchanged")
-		return
-	}
-	nd.Assert(1 <= d, "display column >= 1")
-	nd.Assert(d <= len(t)+1, "display column within excerpt")
-	if col <= len(s) {
-		nd.Known("C19/head-boundary", col == MaxLineLength-2)
-		// property: "the caret stands under the character at the reported column ... after truncation"
-		nd.Assert(d <= len(t), "caret inside excerpt")
-		nd.Assert(t[d-1] == s[col-1], "caret under the reported character")
-	} else {
-		// column len+1 (the end of the line): like on a short line, the caret stands one past the last shown character
-		nd.Assert(d == len(t)+1, "column one past the end of the line: caret one past the end of the excerpt")
-	}
-}
-
-// C19-K2: the line window. Cache entry = arbitrary file of 0..5 lines (contents are opaque atoms: the code only copies
-// them), arbitrary diagnostic line >= 1: result = lines max(1,L-2)..min(n,L+1) with their numbers, nothing if the file
-// does not reach line L; never a failure.
-func ZZC19K2() {
-	n := nd.Int("n_lines")
-	nd.Assume(0 <= n)
-	nd.Assume(n <= 5)
-	lines := []string{}
-	names := []string{"line1", "line2", "line3", "line4", "line5"}
-	for i := 0; i < 5; i++ {
-		if i < n {
-			lines = append(lines, nd.Atom(names[i]))
-		}
-	}
-	r := &Reporter{lineCache: map[string][]string{"f.go": lines}}
-	L := nd.Int("diag_line")
-	nd.Assume(1 <= L)
-	nd.Assume(L <= 1<<31-1)
-	res := r.readSourceLines("f.go", L, 2, 1)
-	lo := nd.IteInt(L-2 >= 1, L-2, 1)
-	hi := nd.IteInt(L+1 <= n, L+1, n)
-	// a file that does not reach the diagnostic's line is "shorter than expected": no excerpt at all (context lines
-	// without the line they are the context of are not an excerpt of the diagnostic)
-	wantLen := nd.IteInt(L <= n, hi-lo+1, 0)
-	nd.Observe("count", len(res.content))
-	nd.Assert(len(res.content) == wantLen, "window has the documented number of lines")
-	nd.Assert(len(res.lineNumbers) == len(res.content), "one number per line")
-	for k := range res.content {
-		nd.Assert(res.lineNumbers[k] == lo+k, "lines are numbered consecutively from max(1, L-2)")
-		idx := res.lineNumbers[k] - 1
-		nd.Assert(nd.And(0 <= idx, idx < len(lines)), "line number inside the file")
-		if 0 <= idx && idx < len(lines) {
-			nd.Assert(res.content[k] == lines[idx], "excerpt line k shows source line number k")
-		}
-	}
-}
-
-// C19-K2b: an unreadable file degrades to no excerpt.
-func ZZC19K2Unreadable() {
-	pass := &analysis.Pass{ReadFile: func(name string) ([]byte, error) { return nil, errUnreadable }}
-	r := NewReporter(pass, nil)
-	L := nd.Int("diag_line")
-	res := r.readSourceLines("missing.go", L, 2, 1)
-	nd.Assert(len(res.content) == 0 && len(res.lineNumbers) == 0, "unreadable file: no excerpt, no failure")
-}
-
-var errUnreadable = fmt.Errorf("unreadable")
-
-type zzViolation struct {
-	code, msg string
-	pos       token.Pos
-}
-
-func (v zzViolation) GetCode() string    { return v.code }
-func (v zzViolation) GetPos() token.Pos  { return v.pos }
-func (v zzViolation) GetMessage() string { return v.msg }
-
-// frozen documentation table
-func zzDocURL(code string) string {
-	base := "https://a14e.github.io/gogreement/"
-	switch {
-	case strings.HasPrefix(code, "IMM"):
-		return base + "02_02_immutable.html"
-	case strings.HasPrefix(code, "CTOR"):
-		return base + "02_03_constructor.html"
-	case strings.HasPrefix(code, "TONL"):
-		return base + "02_04_testonly.html"
-	case strings.HasPrefix(code, "PKGO"):
-		return base + "02_05_packageonly.html"
-	case strings.HasPrefix(code, "IMPL"):
-		return base + "02_01_implements.html"
-	}
-	return base
-}
-
+// through the exported reporter only (NewReporter / ReportViolation)
 // C19-K3: the whole rendered message for an arbitrary small file (<= 3 lines, tabs allowed), arbitrary existing
 // diagnostic line and arbitrary column: header, gutter, numbered context lines, the diagnostic's own line, a caret row whose
 // prefix repeats the line's tabs, help link.
@@ -175,33 +68,6 @@ func zzC19K3(maxContent, maxNewlines int, codes ...string) {
 	want += "  |\n   = help: " + zzDocURL(code) + "\n"
 	nd.Observe("got", got)
 	nd.Assert(got == want, "rendered message = header + numbered window + caret row under the reported column + help link")
-}
-
-// C19-K4: composition for long lines. One line longer than the display limit (3 arbitrary bytes + 250 fixed bytes + 3
-// arbitrary bytes), any column: the rendered excerpt is truncateString(line) and the caret row has
-// calculateDisplayColumn(line)-1 cells — both taken on the ORIGINAL line and column (K1 proves those two functions right).
-func ZZC19K4() {
-	head := nd.Str("head", 3)
-	tail := nd.Str("tail", 3)
-	nd.Assume(nd.CountByte(head, '\n')+nd.CountByte(tail, '\n') == 0)
-	nd.Assume(nd.CountByte(head, '\r')+nd.CountByte(tail, '\r') == 0)
-	nd.Assume(nd.CountByte(head, '\t')+nd.CountByte(tail, '\t') == 0)
-	line := head + strings.Repeat("x", 250) + tail
-	col := nd.Int("diag_col")
-	nd.Assume(1 <= col)
-	nd.Assume(col <= len(line)+1)
-	fset, pos := nd.FsetFor("f.go", line, 1, col)
-	var got string
-	pass := &analysis.Pass{
-		Fset:     fset,
-		ReadFile: func(name string) ([]byte, error) { return []byte(line), nil },
-		Report:   func(d analysis.Diagnostic) { got = d.Message },
-	}
-	NewReporter(pass, nil).ReportViolation(zzViolation{code: "IMM01", msg: "m", pos: pos})
-	t := truncateString(line, MaxLineLength, col)
-	d := calculateDisplayColumn(line, col, MaxLineLength)
-	want := "error: [IMM01] m\n  |\n1 | " + t + "\n  | " + strings.Repeat(" ", d-1) + "^\n  |\n   = help: " + zzDocURL("IMM01") + "\n"
-	nd.Assert(got == want, "long line: excerpt and caret use the original line and column")
 }
 
 // C19-K5: history independence. One Reporter renders two diagnostics on the same over-long line (columns from all three
@@ -291,7 +157,7 @@ func ZZC19Tabs() {
 // C19-K7: multi-byte characters. A one-line file of three (thorough: four) "characters", each arbitrary in {a, TAB, é (2 bytes), € (3 bytes),
 // nothing}; the diagnostic's column is the byte column of any character boundary (what go/token reports): the caret row has
 // ONE cell per character before the column (a tab for a tab), so that the caret stands under the reported character.
-func ZZC19Utf8()  { zzC19Utf8(3) }
+func ZZC19Utf8()   { zzC19Utf8(3) }
 func ZZC19Utf8x4() { zzC19Utf8(4) }
 
 func zzC19Utf8(n int) {
@@ -324,32 +190,6 @@ func zzC19Utf8(n int) {
 	want := "error: [IMM01] m\n  |\n1 | " + line + "\n  | " + caret + "^\n  |\n   = help: " + zzDocURL("IMM01") + "\n"
 	nd.Observe("got", got)
 	nd.Assert(got == want, "multi-byte characters before the column: one caret cell per character")
-}
-
-// C19-K8: truncation never cuts a multi-byte character. A 308-byte line of 150 two-byte characters followed by ASCII text;
-// the column is the byte column of any character: the shown piece starts and ends at character boundaries, the caret
-// column still addresses the reported character, and the length bound holds.
-func ZZC19Utf8Long() {
-	line := strings.Repeat("é", 150) + "x.f = 12"
-	col := nd.Int("col")
-	nd.Assume(1 <= col)
-	nd.Assume(col <= len(line))
-	b0 := line[col-1]
-	nd.Assume(b0 < 0x80 || b0 >= 0xC0) // a character starts at the column
-	t := truncateString(line, MaxLineLength, col)
-	d := calculateDisplayColumn(line, col, MaxLineLength)
-	nd.Assert(len(t) <= MaxLineLength+6, "excerpt length bounded by limit + ellipses")
-	nd.Assert(nd.And(1 <= d, d <= len(t)), "caret inside excerpt")
-	nd.Assert(t[d-1] == line[col-1], "caret column addresses the reported character")
-	first, last := 0, len(t)-1
-	if strings.HasPrefix(t, "...") {
-		first = 3
-	}
-	if strings.HasSuffix(t, "...") {
-		last = len(t) - 4
-	}
-	nd.Assert(t[first] < 0x80 || t[first] >= 0xC0, "the shown piece does not begin inside a character")
-	nd.Assert(t[last] < 0xC0, "the shown piece does not end inside a character")
 }
 
 // C19-K9: "however long the source line is" beyond the scanner's default token limit. A file whose second line has 70 000
